@@ -5,6 +5,7 @@ package rdl
 
 import (
 	"errors"
+	"io"
 	"math/rand/v2"
 	"net"
 	"os"
@@ -28,6 +29,7 @@ type adapter struct {
 	setReadDeadline func(t time.Time)
 	setDeadline     func(t time.Time) // nil: the type has no SetDeadline
 	deliver         func(p []byte)    // data becomes available to the reader
+	closeConn       func()            // nil: Close is not scripted for this type
 	afterEvent      func()            // e.g. Bridge.Tick
 	latency         time.Duration     // time deliver() takes before the data is available
 	cleanup         func()
@@ -38,7 +40,9 @@ func newAdapter(kind int) *adapter {
 	case 0:
 		b := packetio.NewBuffer()
 		return &adapter{read: b.Read, setReadDeadline: func(t time.Time) { _ = b.SetReadDeadline(t) },
-			deliver: func(p []byte) { _, _ = b.Write(p) }, cleanup: func() { _ = b.Close() }}
+			deliver: func(p []byte) { _, _ = b.Write(p) }, cleanup: func() { _ = b.Close() },
+			// a closed Buffer hands out what it holds and then io.EOF; its deadline goes on working
+			closeConn: func() { _ = b.Close() }}
 	case 1:
 		c0, c1 := dpipe.Pipe()
 		return &adapter{read: c0.Read, setReadDeadline: func(t time.Time) { _ = c0.SetReadDeadline(t) },
@@ -110,6 +114,8 @@ func run(h *common.History) {
 				r.id = int(buf[0])
 			case isTimeout(err):
 				r.cls = 1
+			case errors.Is(err, io.EOF):
+				r.cls = 2
 			default:
 				r.cls = 9
 			}
@@ -140,6 +146,11 @@ func run(h *common.History) {
 			reqCh <- 16
 		case "5":
 			reqCh <- 0 // a zero-length read, only scripted while the deadline in force has passed: must time out too
+		case "6":
+			if a.closeConn != nil {
+				a.closeConn()
+				h.Tags = append(h.Tags, "closed_with_deadline_history")
+			}
 		}
 		synctest.Wait()
 		if a.afterEvent != nil {
@@ -186,8 +197,16 @@ func gen(r *rand.Rand, kind int) *common.History {
 	n := 8 + r.IntN(30)
 	id := 0
 	curDL := int64(0) // the deadline in force
+	closeAt := -1
+	if kind == 0 && r.IntN(3) == 0 {
+		closeAt = n/3 + r.IntN(n-n/3) // Close somewhere in the later part, the deadline history goes on
+	}
 	for i := 0; i < n; i++ {
 		now = fresh(now + []int64{1 * ms, 3 * ms, 10 * ms, 10 * ms, 2000 * ms, 50 * ms}[r.IntN(6)] + r.Int64N(1000))
+		if i == closeAt {
+			h.Ops = append(h.Ops, []string{common.I(now), "6"})
+			continue
+		}
 		switch c := r.IntN(100); {
 		case c < 30:
 			var d int64
